@@ -441,13 +441,109 @@ macro_rules! perp_world {
                 Some((pay, cl))
             }
 
+            /// C09: the liquidation criterion recomputed from first principles with exact integers, reading only
+            /// raw state (pools, position fields) and the configuration numbers given to `perp new`; it does not call
+            /// `check_liquidatable` nor any of the functions it is composed of. Remaining collateral value =
+            /// collateral value at the min price + pnl (trader-capped) of a full close + the hypothetical close price
+            /// impact ONLY IF NEGATIVE (capped by the liquidation impact factor) − close costs (order, borrowing,
+            /// funding fees at the min price); compared with the min collateral value (if `mc`) and
+            /// `factor × size` (liquidation factor if `fl`). `None`: not computable here (empty position, non-integer
+            /// exponent, state on which the implementation's computation fails). `count_positive` (coverage statistics
+            /// only): the WRONG criterion that also counts a positive impact.
+            pub fn health(s: &Session, cfg: &[BigInt], pid: u64, pr: &[BigInt], mc: bool, fl: bool, count_positive: bool) -> Option<&'static str> {
+                if cfg.len() != 56 || pr.len() != 6 { return None; }
+                let p = s.ps.get(&pid)?;
+                let m = &s.m;
+                let z = BigInt::from(0);
+                let u = bu(UNIT);
+                let (il, cl) = (p.is_long, p.is_collateral_token_long);
+                let (size, tokens, coll) = (bu(p.size_in_usd), bu(p.size_in_tokens), bu(p.collateral_token_amount));
+                if size == z || tokens == z { return None; }
+                let (imin, imax) = (&pr[0], &pr[1]);
+                let cpmin = if cl { &pr[2] } else { &pr[4] };
+                if *cpmin == z || *imin == z { return None; }
+                let side = |x: &(TestPool<$U>, TestPool<$U>)| if il { x.0 } else { x.1 };
+                let tot = |q: TestPool<$U>| bu(q.long_amount) + bu(q.short_amount);
+                // ---- pnl of a full close, with the trader cap
+                let uncapped = if il { &tokens * imin - &size } else { &size - &tokens * imax };
+                let total = if uncapped > z {
+                    let pool_value = bu(if il { m.primary.long_amount } else { m.primary.short_amount }) * (if il { &pr[2] } else { &pr[4] });
+                    let (oi, oit) = (tot(side(&m.open_interest)), tot(side(&m.open_interest_in_tokens)));
+                    let pool_pnl = if oi == z && oit == z { z.clone() } else if il { &oit * imax - &oi } else { &oi - &oit * imin };
+                    if pool_pnl > z {
+                        let max_pnl = &pool_value * &cfg[19] / &u;
+                        if pool_pnl > max_pnl { &max_pnl * &uncapped / &pool_pnl } else { uncapped.clone() }
+                    } else { uncapped.clone() }
+                } else { uncapped.clone() };
+                let pnl = &tokens * &total / &tokens;
+                // ---- hypothetical price impact of closing the whole size
+                let (e, fpos, fneg) = (&cfg[6], &cfg[7], &cfg[8]);
+                if e % &u != z { return None; }
+                let k = (e / &u).to_string().parse::<u32>().ok()?;
+                if k > 8 { return None; }
+                let (apos, aneg) = if fpos > fneg { (fneg.clone(), fneg.clone()) } else { (fpos.clone(), fneg.clone()) };
+                let apply = |v: &BigInt, f: &BigInt| -> BigInt {
+                    let pw = if *v < u { z.clone() } else if *v == u || k == 0 { u.clone() } else if k == 1 { v.clone() } else { let mut acc = u.clone(); for _ in 0..k { acc = acc * v / &u; } acc };
+                    pw * f / &u
+                };
+                let absd = |a: &BigInt, b: &BigInt| if a >= b { a - b } else { b - a };
+                // (value, improved)
+                let impact = |cl_: &BigInt, cs: &BigInt, nl: &BigInt, ns: &BigInt| -> (BigInt, bool) {
+                    let (i0, i1) = (absd(cl_, cs), absd(nl, ns));
+                    let v = if (cl_ <= cs) == (nl <= ns) {
+                        let pos = i1 < i0; let f = if pos { &apos } else { &aneg };
+                        let d = absd(&apply(&i0, f), &apply(&i1, f)); if pos { d } else { -d }
+                    } else {
+                        let (a, b) = (apply(&i0, &apos), apply(&i1, &aneg)); let d = absd(&a, &b); if a > b { d } else { -d }
+                    };
+                    (v, i1 < i0)
+                };
+                let (ol, os) = (tot(m.open_interest.0), tot(m.open_interest.1));
+                let (dl, ds) = if il { (-&size, z.clone()) } else { (z.clone(), -&size) };
+                let (nl, ns) = (&ol + &dl, &os + &ds);
+                if nl < z || ns < z { return None; }
+                let mut imp = impact(&ol, &os, &nl, &ns);
+                if imp.0 < z { if let Some(vi) = m.vi_positions {
+                    let (l, sh) = (bu(vi.long_amount), bu(vi.short_amount));
+                    let (a, b) = if l >= sh { (&l - &sh, z.clone()) } else { (z.clone(), &sh - &l) };
+                    let (a, b) = (a + &size, b + &size);
+                    let (vl, vs) = (&a + &dl, &b + &ds);
+                    if vl < z || vs < z { return None; }
+                    let vimp = impact(&a, &b, &vl, &vs);
+                    if vimp.0 < imp.0 { imp = vimp; }
+                } }
+                let counted = if imp.0 < z { let floor = -(&size * &cfg[36] / &u); if imp.0 < floor { floor } else { imp.0.clone() } } else if count_positive { imp.0.clone() } else { z.clone() };
+                // ---- close costs
+                let order = &size * (if imp.1 { &cfg[9] } else { &cfg[10] }) / &u / cpmin;
+                let cum = bu(if il { m.borrowing_factor.long_amount } else { m.borrowing_factor.short_amount });
+                let pbf = bu(p.borrowing_factor);
+                if cum < pbf { return None; }
+                let borrow = &size * (&cum - &pbf) / &u / cpmin;
+                let faps = { let q = side(&m.funding_amount_per_size); bu(if cl { q.long_amount } else { q.short_amount }) };
+                let pf = bu(p.funding_fee_amount_per_size);
+                if faps < pf { return None; }
+                let den = &cfg[27] * &u;
+                if den == z { return None; }
+                let funding = (&size * (&faps - &pf) + &den - 1) / &den;
+                let cost = (order + borrow + funding) * cpmin;
+                let rem = &coll * cpmin + pnl + counted - cost;
+                // ---- thresholds
+                let factor = if fl { &cfg[33] } else { &cfg[32] };
+                Some(if rem < z { if mc { "mincollateral" } else { "notpositive" } }
+                    else if mc && rem < cfg[31] { "mincollateral" }
+                    else if rem == z { "notpositive" }
+                    else if rem < &size * factor / &u { "leverage" } else { "none" })
+            }
+
             // ------------------------------------------------------------------ history generator
             /// produces the next request of a random history relative to the current session state
-            pub struct HistGen { pub sid: String, pub left: u32, pub px: u64, pub next_pid: u64, pub stage: u32, pub pending: Vec<String>, pub roundtrip: bool }
+            /// bisection on the collateral of a fresh position towards the smallest amount an increase accepts
+            pub struct Bisect { pub pid: u64, pub il: bool, pub cl: bool, pub size: $U, pub lo: $U, pub hi: $U, pub cur: $U, pub steps: u32, pub pr: String, pub first: bool }
+            pub struct HistGen { pub sid: String, pub left: u32, pub px: u64, pub next_pid: u64, pub stage: u32, pub pending: Vec<String>, pub roundtrip: bool, pub mcf: $U, pub bisect: Option<Bisect> }
 
             impl HistGen {
                 pub fn new(r: &mut Rng, sid: String, roundtrip: bool) -> Self {
-                    HistGen { sid, left: 10 + r.below(40) as u32, px: 50 + r.below(200), next_pid: 0, stage: 0, pending: vec![], roundtrip }
+                    HistGen { sid, left: 10 + r.below(40) as u32, px: 50 + r.below(200), next_pid: 0, stage: 0, pending: vec![], roundtrip, mcf: 0, bisect: None }
                 }
 
                 pub fn price_str(&self, r: &mut Rng) -> String {
@@ -460,15 +556,41 @@ macro_rules! perp_world {
                     if let Some(q) = self.pending.pop() { return Some(q); }
                     let sid = self.sid.clone();
                     match self.stage {
-                        0 => { self.stage = 1; let c: Vec<String> = random_cfg(r).iter().map(|x| x.to_string()).collect(); return Some(format!("perp new {sid} {W} {UNIT} {}", c.join(" "))); }
+                        0 => { self.stage = 1; let cv = random_cfg(r); self.mcf = cv[32]; let c: Vec<String> = cv.iter().map(|x| x.to_string()).collect(); return Some(format!("perp new {sid} {W} {UNIT} {}", c.join(" "))); }
                         1 => { self.stage = 2; return Some(format!("perp setpool {sid} 0 {} {}", 1_000_000_000 + r.below(1_000_000_000_000), r.below(100_000_000_000_000))); }
                         2 => { self.stage = 3; return Some(format!("perp setpool {sid} 7 {} 0", *r.pick(&[0u64, 1_000_000, 50_000_000_000]))); }
                         3 => { self.stage = 4; let p = self.price_str(r); self.pending = vec![format!("perp ufund {sid} {p}"), format!("perp ubor {sid} {p}")]; return Some(format!("perp dist {sid}")); }
                         _ => {}
                     }
+                    let s = db.get(&sid)?;
+                    // bisection in progress: look at the outcome of the last attempt and halve the interval
+                    if let Some(mut b) = self.bisect.take() {
+                        let accepted = s.ps.get(&b.pid).map(|p| p.size_in_usd != 0).unwrap_or(false);
+                        // (a rejected first attempt ends the bisection)
+                        if accepted || !b.first {
+                            if accepted { b.hi = b.cur; } else { b.lo = b.cur; }
+                            b.first = false;
+                            b.steps -= 1;
+                            if b.steps > 0 && b.hi > b.lo + 1 {
+                                b.cur = b.lo + (b.hi - b.lo) / 2;
+                                let pr = b.pr.clone();
+                                if accepted {
+                                    // close the accepted position and try a smaller collateral on a fresh one
+                                    let old = b.pid; b.pid = self.next_pid; self.next_pid += 1;
+                                    self.pending = vec![format!("perp chk {sid} {} 1 0 {pr}", b.pid), format!("perp inc {sid} {} {} {} {pr}", b.pid, b.cur, b.size), format!("perp open {sid} {} {} {}", b.pid, b.il as u8, b.cl as u8)];
+                                    let q = format!("perp dec {sid} {old} {} 0 0 0 1 {pr}", b.size);
+                                    self.bisect = Some(b);
+                                    return Some(q);
+                                }
+                                let q = format!("perp inc {sid} {} {} {} {pr}", b.pid, b.cur, b.size);
+                                self.pending = vec![format!("perp chk {sid} {} 1 0 {pr}", b.pid)];
+                                self.bisect = Some(b);
+                                return Some(q);
+                            }
+                        }
+                    }
                     if self.left == 0 { return None; }
                     self.left -= 1;
-                    let s = db.get(&sid)?;
                     if !self.roundtrip && r.chance(1, 4) { self.px = (self.px as i64 + r.below(21) as i64 - 10).max(2) as u64; }
                     let pr = self.price_str(r);
                     let open: Vec<(u64, &P)> = s.ps.iter().filter(|(_, p)| p.size_in_usd != 0 || p.collateral_token_amount != 0).map(|(k, p)| (*k, p)).collect();
@@ -493,10 +615,27 @@ macro_rules! perp_world {
                             let new = open.is_empty() || r.chance(1, 2);
                             let (pid, cl) = if new { let pid = self.next_pid; self.next_pid += 1; (pid, r.chance(1, 2)) } else { let (k, p) = open[r.below(open.len() as u64) as usize]; (k, p.is_collateral_token_long) };
                             let size = (*r.pick(&[0u64, 1_000_000_000, 20_000_000_000, 500_000_000_000, 5_000_000_000_000]) + r.below(1_000_000_000)) as $U * SCALE;
-                            let cval = (size / SCALE) as u64 / (1 + r.below(30)) + r.below(2_000_000_000);
+                            // a third of the new positions: on the heavier side (closing it would improve the balance, so the
+                            // hypothetical close impact is positive) with collateral within a few percent of the leverage threshold
+                            let near = new && size != 0 && r.chance(1, 3);
+                            let cval = if near { let need = ((size / SCALE) / 1_000_000 * (self.mcf / (UNIT / 1_000_000))) as u64; need / 100 * (90 + r.below(80)) + r.below(3) }
+                                else { (size / SCALE) as u64 / (1 + r.below(30)) + r.below(2_000_000_000) };
                             let c = (if cl { cval / self.px.max(1) } else { cval }) as $U;
                             self.pending = vec![format!("perp chk {sid} {pid} 1 1 {pr}"), format!("perp chk {sid} {pid} 1 0 {pr}"), format!("perp inc {sid} {pid} {c} {size} {pr}")];
-                            if new { return Some(format!("perp open {sid} {pid} {} {}", r.below(2), cl as u8)); }
+                            if near && r.chance(1, 2) {
+                                // bisect the collateral towards the acceptance threshold, starting from 3x leverage
+                                let tot = |q: TestPool<$U>| q.long_amount.saturating_add(q.short_amount);
+                                let il = tot(s.m.open_interest.0) >= tot(s.m.open_interest.1);
+                                let hv = (size / SCALE) as u64 / 3;
+                                let hi = (if cl { hv / self.px.max(1) } else { hv }) as $U;
+                                self.pending = vec![format!("perp chk {sid} {pid} 1 0 {pr}"), format!("perp inc {sid} {pid} {hi} {size} {pr}")];
+                                self.bisect = Some(Bisect { pid, il, cl, size, lo: 0, hi, cur: hi, steps: 16, pr: pr.clone(), first: true });
+                                return Some(format!("perp open {sid} {pid} {} {}", il as u8, cl as u8));
+                            }
+                            if new {
+                                let tot = |q: TestPool<$U>| q.long_amount.saturating_add(q.short_amount);
+                                let il = if near { (tot(s.m.open_interest.0) >= tot(s.m.open_interest.1)) as u64 } else { r.below(2) };
+                                return Some(format!("perp open {sid} {pid} {il} {}", cl as u8)); }
                             self.pending.pop()
                         }
                         3 | 4 | 5 => {
@@ -572,6 +711,22 @@ struct Track {
 
 fn bi(s: &str) -> BigInt { s.parse::<BigInt>().unwrap_or_default() }
 
+/// C09: the independent health computation for a session of either width.
+#[allow(clippy::too_many_arguments)]
+fn health_any(db64: &HashMap<String, w64::Session>, db128: &HashMap<String, w128::Session>, track: &HashMap<String, Track>, is64: bool,
+    sid: &str, pid: &str, pr: &[&str], mc: bool, fl: bool) -> Option<&'static str> {
+    let cfg: Vec<BigInt> = track.get(sid)?.cfg.iter().map(|x| bi(x)).collect();
+    let pid: u64 = pid.parse().ok()?;
+    let pr: Vec<BigInt> = pr.iter().map(|x| bi(x)).collect();
+    let h = |cp: bool| if is64 { w64::health(db64.get(sid)?, &cfg, pid, &pr, mc, fl, cp) } else { w128::health(db128.get(sid)?, &cfg, pid, &pr, mc, fl, cp) };
+    let r = h(false);
+    // coverage: would counting a positive hypothetical close impact change the verdict here?
+    if r.is_some() && h(true) != r { POS_MATTERS.fetch_add(1, std::sync::atomic::Ordering::Relaxed); }
+    r
+}
+
+static POS_MATTERS: std::sync::atomic::AtomicU64 = std::sync::atomic::AtomicU64::new(0);
+
 /// shared main of the `perp` bins: `prop` ∈ {"C07","C08","C09","C10"} selects the oracle.
 pub fn run_bin(prop: &str) {
     let cli = cli();
@@ -616,6 +771,9 @@ pub fn run_bin(prop: &str) {
             if is64 { match db64.get(&sid) { Some(s) => (w64::ledger(&s.m), pid.and_then(|k| s.ps.get(&k)).map(|p| (p.is_long, p.is_collateral_token_long, BigInt::from(p.size_in_usd)))), None => (Default::default(), None) } }
             else { match db128.get(&sid) { Some(s) => (w128::ledger(&s.m), pid.and_then(|k| s.ps.get(&k)).map(|p| (p.is_long, p.is_collateral_token_long, BigInt::from(p.size_in_usd)))), None => (Default::default(), None) } }
         };
+        // C09: health of the position before a liquidation order, by the independent computation
+        let pre_liq: Option<&'static str> = if prop == "C09" && op == "dec" && t.len() == 15 && t[7] == "1" {
+            health_any(&db64, &db128, &track, is64, &sid, t[3], &t[9..], true, true) } else { None };
         let resp = match std::panic::catch_unwind(std::panic::AssertUnwindSafe(|| if is64 { w64::exec(&mut db64, &t[1..]) } else { w128::exec(&mut db128, &t[1..]) })) {
             Ok(Some(x)) => x, Ok(None) => "bad-op".into(), Err(_) => "panic".into() };
         if resp == "panic" { out.oracle_fail("panicked", &req); }
@@ -701,10 +859,24 @@ pub fn run_bin(prop: &str) {
                 }
             }
             // ---------------- C09: health after increase/decrease, liquidation guard
+            // The verdicts come from `health` (first principles, exact integers), NOT from the implementation's
+            // `check_liquidatable`; the implementation's own answers (`chk`) are additionally compared with it.
             if prop == "C09" {
                 let prices = |from: usize| t[from..].join(" ");
+                let liq_gt = track.get(&sid).map(|x| bi(&x.cfg[33]) > bi(&x.cfg[32])).unwrap_or(false);
                 match op {
-                    "inc" => { after_dec = None; after_inc = if ok { Some((sid.clone(), t[3].to_string(), prices(6))) } else { None }; }
+                    "inc" => {
+                        after_dec = None; after_inc = if ok { Some((sid.clone(), t[3].to_string(), prices(6))) } else { None };
+                        if ok && t.len() == 12 {
+                            let h0 = health_any(&db64, &db128, &track, is64, &sid, t[3], &t[6..], true, false);
+                            let h1 = health_any(&db64, &db128, &track, is64, &sid, t[3], &t[6..], true, true);
+                            match h0 { None => out.stat("health.uncomputable"), Some("none") => out.stat("health.inc_ok"),
+                                Some(x) => out.oracle_fail(&format!("a successful increase left the position liquidatable at the execution prices (criterion recomputed independently: {x})"), &req) }
+                            match h1 { None | Some("none") => {},
+                                Some("leverage") if liq_gt => out.known("F-C09", "position liquidatable right after a successful order (liquidation factor above the open-position factor)", &req),
+                                Some(x) => out.oracle_fail(&format!("a successful increase left the position liquidatable under the liquidation thresholds (criterion recomputed independently: {x})"), &req) }
+                        }
+                    }
                     "dec" => {
                         after_inc = None; after_dec = None;
                         let key = (sid.clone(), t[3].to_string(), prices(9));
@@ -712,20 +884,35 @@ pub fn run_bin(prop: &str) {
                             // liquidation order
                             if ok {
                                 out.stat("liquidation.ok");
+                                match pre_liq { Some("none") => out.oracle_fail("a liquidation succeeded for a position that is not liquidatable under the liquidation thresholds (criterion recomputed independently)", &req), Some(_) => out.stat("liquidation.ok_confirmed"), None => out.stat("health.uncomputable") }
                                 match last_chk_liq.get(&key) { Some(x) if x != "none" => {}, Some(_) => out.oracle_fail("a liquidation succeeded for a position that is not liquidatable under the liquidation thresholds", &req), None => {} }
                                 if rt[8] != "1" || Some(bi(rt[1])) != pos_before.clone().map(|x| x.2) { out.oracle_fail("a liquidation did not close the whole position", &req); }
                             } else if head == "err notliquidatable" {
                                 out.stat("liquidation.rejected");
+                                if let Some(x) = pre_liq { if x != "none" { out.oracle_fail(&format!("liquidation of a liquidatable position ({x} by the independently recomputed criterion) was rejected as not liquidatable"), &req); } }
                                 if let Some(x) = last_chk_liq.get(&key) { if x != "none" { out.oracle_fail("liquidation of a liquidatable position was rejected as not liquidatable", &req); } }
                             }
-                        } else if ok && rt[8] == "0" { after_dec = Some(key); }
+                        } else if ok && rt[8] == "0" {
+                            after_dec = Some(key);
+                            let h0 = health_any(&db64, &db128, &track, is64, &sid, t[3], &t[9..], false, false);
+                            let h1 = health_any(&db64, &db128, &track, is64, &sid, t[3], &t[9..], true, true);
+                            match h0 { None => out.stat("health.uncomputable"), Some("none") => out.stat("health.dec_ok"),
+                                Some(x) => out.oracle_fail(&format!("a decrease that left the position open left it liquidatable at the execution prices (criterion recomputed independently: {x})"), &req) }
+                            match h1 { None | Some("none") => {},
+                                Some(x) if x == "mincollateral" || (liq_gt && x == "leverage") => { out.known("F-C09", "position liquidatable right after a successful order (min collateral value not validated on decrease / liquidation factor above the open-position factor)", &req); out.stat("dec.left_liquidatable"); }
+                                Some(x) => out.oracle_fail(&format!("a decrease that left the position open left it liquidatable under the liquidation thresholds (criterion recomputed independently: {x})"), &req) }
+                        }
                     }
                     "chk" if ok => {
                         let key = (sid.clone(), t[3].to_string(), prices(6));
                         let (mc, fl) = (t[4], t[5]);
+                        // the implementation's answer against the independent computation
+                        match health_any(&db64, &db128, &track, is64, &sid, t[3], &t[6..], mc == "1", fl == "1") {
+                            None => out.stat("health.uncomputable"),
+                            Some(x) if x == rt[1] => out.stat("health.chk_agree"),
+                            Some(x) => out.oracle_fail(&format!("check_liquidatable answered {} but the criterion recomputed from the state gives {x}", rt[1]), &req),
+                        }
                         if mc == "1" && fl == "1" { last_chk_liq.insert(key.clone(), rt[1].to_string()); if last_chk_liq.len() > 4096 { last_chk_liq.clear(); } }
-                        let tr = track.get(&sid);
-                        let liq_gt = tr.map(|x| bi(&x.cfg[33]) > bi(&x.cfg[32])).unwrap_or(false);
                         if after_inc.as_ref() == Some(&key) {
                             if mc == "1" && fl == "0" && rt[1] != "none" { out.oracle_fail("a successful increase left the position liquidatable at the execution prices", &req); }
                             if mc == "1" && fl == "1" && rt[1] != "none" {
@@ -781,5 +968,6 @@ pub fn run_bin(prop: &str) {
         }
         out.case_nt(&req, &resp, nt);
     }
+    if prop == "C09" { for _ in 0..POS_MATTERS.load(std::sync::atomic::Ordering::Relaxed) { out.stat("health.positive_impact_would_matter"); } }
     out.finish();
 }
